@@ -3,11 +3,43 @@ NOTES = "Every check: python3 check.py <id> --tier quick|thorough. Known finding
 NOT_CLAIMED = {}
 BASE_NOTE = ("Trusted: Lean 4.33 kernel (axioms ⊆ propext, Classical.choice, Quot.sound; audited each run), tools/translate.py, "
              "the hand-written model of the control logic (tied to the code by the correspondence run only), harness dump + driver reader.")
-CLAIMS = {
-    "C02": {
-        "category": "proof",
-        "text": "Theorem Props.C02 / C02_generated: for every configuration whose generated tables satisfy the framing facts (re-decided on each run for the tables regenerated from the source), every cache state and every buffer, whenever the modelled parse_bytes returns, its result satisfies the decidable predicate Preds.decomposes (packets' header-implied wire lengths sum to a prefix, at most one final error whose remaining bytes are the unconsumed suffix, silent stop only before a disallowed version). Induction over the packet loop from per-parser consumption lemmas. The same predicate is evaluated on the real crate's output on every generated history, and the model's answer is compared with the crate's.",
-        "note": BASE_NOTE,
-        "technique": "Lean 4 theorem (induction over parse loop, generic layout lemmas) + generated tables + differential correspondence",
-    },
+import os, re
+_PROPS_DIR = os.path.join(os.path.dirname(os.path.abspath(__file__)), "..", "lean", "NetflowModel", "Props")
+
+def _has_theorems(pid):
+    p = os.path.join(_PROPS_DIR, pid + ".lean")
+    return os.path.exists(p) and re.search(r"^theorem ", open(p).read(), flags=re.M) is not None
+
+CORR = (" The executable model is compared with the real crate on every generated operation history (view: %s) and the same decidable predicate "
+        "(lean/NetflowModel/Preds.lean) that the theorems are about is evaluated on what the real crate returned.")
+TV_TEXT = ("Theorems for this property are not finished yet: the claim today is that the Lean model (whose tables/layouts are regenerated from the source on every run) "
+           "and the real crate agree on the property's view for every generated history, and that the property's decidable predicate, stated once in Lean, holds on the crate's output "
+           "outside the recorded known findings.")
+
+_T = {
+    "C01": ("no panic / abort / stack overflow / hang: model functions are total; oracle = the crate returned normally on a 2 MiB-stack thread and every returned value re-exports, converts and serialises without panic", "outcome"),
+    "C02": ("Theorem Props.C02 / C02_generated: for every configuration whose generated tables satisfy the framing facts (re-decided on each run for the tables regenerated from the source), every cache state and every buffer, whenever the modelled parse_bytes returns, its result satisfies Preds.decomposes (header-implied wire lengths sum to a prefix, at most one final error whose remaining bytes are the unconsumed suffix, silent stop only before a disallowed version). Induction over the packet loop from per-parser consumption lemmas.", "outcome, packets"),
+    "C03": ("V5/V7 decode at the Cisco offsets (hand-written Cisco layouts in Spec/Cisco.lean compared with the layouts generated from the derive(Nom) structs), protocol names against the IANA table in Spec/Iana.lean, short input is an error", "outcome, packets"),
+    "C04": ("V9 streams decode exactly as the governing template says: expected view computed by the specification (Spec/Expected.lean: latest-definition-wins template memory, per-type big-endian interpretation) from the abstract stream that the RFC 3954 writer Spec.enc encoded", "outcome, packets, caches"),
+    "C05": ("IPFIX streams decode exactly as RFC 7011 and the template say (enterprise fields, variable-length prefixes, zero-length fields, options templates); expected view from Spec/Expected.lean", "outcome, packets, caches"),
+    "C06": ("template cache: latest definition wins (either kind), persists across calls, independent of the split into calls, untouched by V5/V7 / disallowed versions, isolated per parser instance and protocol", "outcome, packets, caches"),
+    "C07": ("data for an unknown template id never yields records (V9: error; IPFIX: set absent), caches unchanged, earlier packets reported, later decodes normally", "outcome, packets, caches"),
+    "C08": ("V5/V7 re-export reproduces the bytes each packet occupied; emission order generated from to_be_bytes and compared with the layout", "outcome, packets, exports"),
+    "C09": ("V9 re-export reproduces the bytes each accepted packet occupied (lossy value kinds are recorded known findings)", "outcome, packets, exports"),
+    "C10": ("IPFIX re-export reproduces header.length bytes (lossy value kinds, enterprise bit, variable-length prefixes, dropped sets are recorded known findings)", "outcome, packets, exports"),
+    "C11": ("chained self-delimiting packets decode as one-per-call, same final caches, for every partition into calls", "outcome, packets, caches"),
+    "C12": ("allowed_versions acts as a prefix filter on the every-version-allowed result and caches; allowed unknown versions give UnknownVersion", "outcome, packets, caches"),
+    "C13": ("common-flow view is the projection of the decoded records (spec projection Preds.specCommon); flat helper = concatenation", "outcome, packets, common"),
+    "C14": ("a packet cut strictly inside yields an error carrying exactly the cut bytes, earlier packets unchanged, caches unchanged for V5/V7/IPFIX", "outcome, packets, caches"),
 }
+
+CLAIMS = {}
+for _pid, (_txt, _view) in _T.items():
+    _proof = _has_theorems(_pid)
+    CLAIMS[_pid] = {
+        "category": "proof" if _proof else "translation_validation",
+        "text": (_txt if _proof else TV_TEXT + " Property reading: " + _txt) + CORR % _view,
+        "note": BASE_NOTE,
+        "technique": ("Lean 4 theorems about the model (Props/%s.lean) + model regenerated from source + differential correspondence" % _pid) if _proof
+                     else "Lean 4 executable model + specification oracle, differential correspondence with the real crate (theorems pending)",
+    }
